@@ -381,6 +381,8 @@ impl Session {
     ) {
         use DownlinkMacCommand::*;
         let mut channel_mask = region.channel_mask_get();
+        // Whether every ChMaskCntl of the current LinkADRReq block was defined for the region
+        let mut channel_mask_cntl_ok = true;
         // The iterator is fused after the first malformed command, so this
         // processes the leading well-formed prefix of the stream.
         let mut cmd_iter = cmds.filter_map(Result::ok).peekable();
@@ -418,14 +420,25 @@ impl Session {
                     //
                     // Number of LinkADRAns must match the number of LinkADRReq
                     // commands.
+                    if num_adrreq == 0 {
+                        // Every block starts from the mask in force, not from the
+                        // leftovers of a previous (possibly rejected) block.
+                        channel_mask = region.channel_mask_get();
+                        channel_mask_cntl_ok = true;
+                    }
                     num_adrreq += 1;
 
-                    // TODO: Validate that input is not RFU
-                    let _ = region.channel_mask_update(
-                        &mut channel_mask,
-                        payload.redundancy().channel_mask_control(),
-                        payload.channel_mask(),
-                    );
+                    // An RFU ChMaskCntl invalidates the channel mask of the whole block
+                    if region
+                        .channel_mask_update(
+                            &mut channel_mask,
+                            payload.redundancy().channel_mask_control(),
+                            payload.channel_mask(),
+                        )
+                        .is_none()
+                    {
+                        channel_mask_cntl_ok = false;
+                    }
 
                     // Check whether LinkADRReq commands continue...
                     if let Some(LinkADRReq(..)) = cmd_iter.peek() {
@@ -452,7 +465,8 @@ impl Session {
                         p => region.check_tx_power(p as u8),
                     };
 
-                    let cm_ack = region.channel_mask_validate(&channel_mask, dr);
+                    let cm_ack =
+                        channel_mask_cntl_ok && region.channel_mask_validate(&channel_mask, dr);
                     if cm_ack && let (Some(dr), Some(pw)) = (dr, pw) {
                         // TODO: handle nbtrans
                         configuration.data_rate = dr;
